@@ -33,7 +33,40 @@ func c08Profiles(tier string) []Profile {
 				{"Revert", func(w *harness.World) { w.Revert() }},
 				{"Flush", func(w *harness.World) { w.Flush() }}}
 		}}
+	// the flush being reverted has every payload size in a range wider than any
+	// plausible scan chunk, and its data may contain the end marker itself
+	sizes := &SeqProfile{Name: "sizes", Keys: [][]byte{kA, kB, kC}, Depth: 0, Mon: harness.Monitors{Durable: true, Append: true}, StepLimit: 400000,
+		Init: func(w *harness.World) {
+			n := harness.Choose(4300, harness.ClassOp)
+			magic := harness.Choose(3, harness.ClassOp)
+			w.Hist = append(w.Hist, fmt.Sprintf("Set(a) Flush Set(b) Flush Set(c, %d bytes, magic variant %d) Flush Revert Revert", n, magic))
+			w.SetCollection("x", "nil")
+			w.SetItem("x", kA, 1, bs("va"))
+			w.Flush()
+			w.SetItem("x", kB, 2, bs("vb"))
+			w.Flush()
+			val := make([]byte, n)
+			for i := range val {
+				val[i] = byte('a' + i%19)
+			}
+			mm := []byte("3e4a5p3e4a5p")
+			switch magic {
+			case 1:
+				val = append(val, mm...)
+			case 2:
+				val = append(append(append([]byte{}, mm...), val...), mm...)
+			}
+			w.SetItem("x", kC, 3, val)
+			w.Flush()
+			w.Revert()
+			if len(w.Viols) == 0 {
+				w.ObserveAll()
+				w.Revert()
+			}
+		},
+		Letters: func(w *harness.World) []Letter { return nil }}
 	return []Profile{
+		sizes.Profile("history [Set Flush, Set Flush, Set(c, value) Flush, FlushRevert, FlushRevert] for every value length 0..4299 x {plain value, value ending in the doubled end marker, value starting and ending with it}: each revert must terminate (step budget), land exactly one flush back, truncate to that flush's root end, and a copy of the file must re-open to the same state"),
 		file.Profile(fmt.Sprintf("every history of length <= %d over Set/Delete of one key, SetCollection(x|y), Flush, FlushRevert, Reopen: zero, one and many flushes, reverts past the first flush, reverts with unflushed changes pending and across re-opens; after every FlushRevert: nil result within the step budget, state = flush stack entry below the top, file length = end of that flush's root record (or 0), and a copy of the file re-opens to the same state", d)),
 		mem.Profile(fmt.Sprintf("every history of length <= %d on a memory-only store: FlushRevert and Flush must return an error and change nothing", dm)),
 	}
